@@ -85,11 +85,13 @@ Definition set_next (s : st) n := mkSt (mss s) (stream s) (rcv_wnd s) (snd_una s
 Definition set_una (s : st) v := mkSt (mss s) (stream s) (rcv_wnd s) v (snd_nxt s) (rcv_nxt s)
   (snd_queue s) (snd_buf s) (rcv_buf s) (rcv_queue s) (next s).
 
-Record cfg := mkCfg { c_mss : Z; c_stream : bool; c_rcvwnd : Z }.
+Record cfg := mkCfg { c_mss : Z; c_stream : bool; c_rcvwnd : Z;
+  c_snd0 : Z;   (* initial snd_una = snd_nxt (0 in NewKCP; any value in the theorems and the harness) *)
+  c_rcv0 : Z    (* initial rcv_nxt *) }.
 
 (* NewKCP (+ SetMtu / WndSize / stream before any traffic): empty queues, nothing acquired *)
 Definition init (c : cfg) : st :=
-  mkSt (c_mss c) (c_stream c) (c_rcvwnd c) 0 0 0 [] [] [] [] 0.
+  mkSt (c_mss c) (c_stream c) (c_rcvwnd c) (c_snd0 c) (c_snd0 c) (c_rcv0 c) [] [] [] [] 0.
 
 Definition seg_ids (g : seg) : list id :=
   match g_data g with Some i => [i] | None => [] end.
@@ -297,13 +299,13 @@ Fixpoint input_segs (s : st) (xs : list iseg) : st * list ev :=
   end.
 
 (* ---- flush: phase 4 (admission of n segments) and phase 5 (reads) ---- *)
-Fixpoint admit (n : nat) (sq sb : list seg) (nxt : Z) : list seg * list seg * Z :=
+Fixpoint sndbuf_admission (n : nat) (sq sb : list seg) (nxt : Z) : list seg * list seg * Z :=
   match n with
   | O => (sq, sb, nxt)
   | S k =>
       match sq with
       | [] => (sq, sb, nxt)
-      | g :: t => admit k t (sb ++ [mkSeg nxt (g_frg g) (g_len g) (g_acked g) (g_data g)]) (u32 (nxt + 1))
+      | g :: t => sndbuf_admission k t (sb ++ [mkSeg nxt (g_frg g) (g_len g) (g_acked g) (g_data g)]) (u32 (nxt + 1))
       end
   end.
 
@@ -312,7 +314,7 @@ Definition flush_reads (sb : list seg) : list ev :=
   flat_map (fun g => if g_acked g then [] else rd_ev g) sb.
 
 Definition flush (s : st) (nmove : Z) : st * list ev :=
-  let '(sq, sb, nxt) := admit (Z.to_nat nmove) (snd_queue s) (snd_buf s) (snd_nxt s) in
+  let '(sq, sb, nxt) := sndbuf_admission (Z.to_nat nmove) (snd_queue s) (snd_buf s) (snd_nxt s) in
   (mkSt (mss s) (stream s) (rcv_wnd s) (snd_una s) nxt (rcv_nxt s) sq sb (rcv_buf s) (rcv_queue s) (next s),
    flush_reads sb).
 
